@@ -103,6 +103,8 @@ def c20(tier, seed, replay):
             distinct_nontrivial=sum(1 for x in recs if x["ok"] == "ok" and x["count"] > 0),
             samples=[{"model": x["name"], "args": str(x["args"])[:60], "sb": x["sb"], "count": x["count"], "opt": x["opt"],
                       "first": x["sols"][0] if x["sols"] else None} for x in recs[:: max(1, len(recs) // 5)][:5]])
+    import engine
+    engine.model_trace_stage(rep, tier, seed, ("C01:", "C02:", "C03:optimal", "C08:custom-algorithm"))
     rep.cov["objects_validated"] = sum(len(x["sols"]) for x in recs)
     rep.cov["runs_skipped_by_watchdog"] = sum(1 for x in recs if x["ok"] == "skip")
     rep.cov["models"] = sorted({x["name"] for x in recs})
